@@ -290,6 +290,24 @@ def rule_d(model, rep):
                           witness=f"CryptContext(['{h.name}'], {h.name}__{prm}=1): from_string(ctx.to_string()) raises ValueError -- the exported '1' is compared with integers")
     if nn < 4:
         rep.undecided(R, "<instance-count>", f"only {nn} numeric option sanitisers found, expected at least 4")
+    # ... but skipping is lossy when the None *overrides* an inherited value (a narrower scope un-setting a broader one): the INI text then
+    # describes another configuration. Only a spelling for None that the loader maps back (an empty value, a sentinel) keeps the decisions.
+    if skips_none and not handles_none:
+        loads_none = any(isinstance(n_, ast.Compare) and ("''" in ast.unparse(n_) or '""' in ast.unparse(n_)) and "value" in ast.unparse(n_)
+                         for n_ in walk_no_nested(model.func(CTX, "_CryptConfig._norm_scheme_option")))
+        if not loads_none:
+            rep.violation(R, f"{CTX}:CryptContext._write_to_parser None override", "if v is None: continue  # an option set to None in a narrower scope is left out of the INI text",
+                          "a None value that un-sets an inherited option (category or scheme scope over a broader one) has no INI spelling: it is dropped and the broader value applies again after the round trip",
+                          witness="CryptContext(['sha256_crypt'], sha256_crypt__min_rounds=200000, admin__sha256_crypt__min_rounds=None): needs_update(<5000-round hash>, category='admin') is False, "
+                                  "and True after from_string(to_string())")
+    # bytes: several hashers take their `ident` as bytes (HasManyIdents._norm_ident); such an option needs an INI spelling too
+    rv2 = model.func(CTX, "CryptContext._render_ini_value")
+    ns = model.func(CTX, "_CryptConfig._norm_scheme_option")
+    byt = any(isinstance(n_, ast.If) and "isinstance(value, bytes)" in ast.unparse(n_.test) and any(isinstance(x, ast.Assign) and ".decode(" in ast.unparse(x.value) for x in ast.walk(n_))
+              for f_ in (rv2, ns) for n_ in walk_no_nested(f_))
+    rep.check(byt, R, f"{CTX}:CryptContext._render_ini_value bytes", "bytes values decoded before rendering" if byt else "a bytes value reaches `assert isinstance(value, str)`",
+              "a bytes-valued option is decoded to text before it is written (or when it is stored)",
+              witness="CryptContext(['phpass'], phpass__ident=b'H').to_string() raises AssertionError although the context hashes, copies and exports to a dict")
     # coercers
     from . import shared as _shared3
     _shared3.rule_no_bool_coercer(model, rep, R)
